@@ -31,6 +31,14 @@ CHECKS = {
              text='For two macro-expanded endpoints whose Rust identifiers differ from declared and wire names, every source (path, query, header, auth header, cookie) has symbolic multiplicity 0..2 and symbolic bytes; on every path the solver decides: an error iff some argument is undecodable, handler not invoked, code INVALID_ARGUMENT (PERMISSION_DENIED for auth), `param` == declared name of the first undecodable argument; otherwise the handler is called exactly once with exactly the decoded values. Counterexamples are replayed on the real endpoints (dev+release).',
              note='Trusted: mirsym + models of http headers, percent_decode, parsed query map (form_urlencoded outside), Error as a record. Outside: body/context arguments, longer values.',
              ref='§5 C19'),
+ 'C13': dict(engine='M', technique='symbolic execution of the real AnySerializer / Serialize for Any / Deserializer for Any / AnyVisitor MIR with full-width symbolic integers, floats (z3 FP) and bounded strings between serde primitive impls (by contract) and an event recorder',
+             text='For every integer width up to 128 bits (full width), bool, ASCII char, f32/f64 incl. all NaN payloads, and strings <= 4 bytes the solver decides Any::new(v).deserialize_into::<T>() == v and that Serialize for Any emits exactly the event v itself emits; JSON number/bool events pushed through AnyVisitor re-serialize to the identical event. Counterexamples replayed natively.',
+             note='Trusted: mirsym; serde primitive impls by contract (incl. the default deserialize_i128/u128 = not supported unless overridden). Outside: sequences/maps/structs/variants inside Any, Base64 coercion, deeper trees.',
+             ref='§5 C13'),
+ 'C05': dict(engine='M', technique='symbolic execution of the whole conjure-serde unknown-field wrapper chain from MIR (31 repository functions incl. fn-local Delegator types) over symbolic object documents; z3 decides reject-and-name (server) / accept-and-drop (client)',
+             text='JSON and Smile, server and client deserialize_struct entry points are executed from MIR down through Override, UnknownFieldsBehavior, StructVisitor/StructMapAccess, Key/ValueDeserializeSeed, WrappingDeserializer, DelegatingDeserializer/Visitor with an event-playing inner deserializer and a derive-like client visitor; documents have <= 2 members with keys from the declared fields (0, 1 or 2 of them) plus one undeclared key in every order. Server: Err(unknown_field(key)) naming exactly the injected key iff it occurs; client: always Ok with exactly the declared members. Counterexamples replayed on the real deserializers.',
+             note='Trusted: mirsym; models of the inner serde_json/serde_smile event stream and of a serde-derive struct visitor. One nesting level is decided exhaustively; deeper nesting re-enters the same wrappers (C01).',
+             ref='§5 C05'),
  'C14': dict(engine='K', technique='bounded model checking of the compiled code (Kani/CBMC) over symbolic f64 triples at full bit width',
              text='Order/equality/hash laws (reflexive incl. NaN==NaN, eq<=>cmp==Equal, antisymmetry, transitivity, NaN greatest, equal=>identical hash stream) are decided by CBMC over all f64 bit patterns for DoubleOps on f64/Option/Vec(<=2) and for DoubleKey, on the real OrderedFloat code. Failures are replayed by concrete playback before being reported.',
              note='Trusted: Kani/CBMC translation; recording Hasher stands for every Hasher. Outside: containers > 2 elements; BTreeMap DoubleOps and educe-derived generated types (not yet covered, stated in evidence).',
